@@ -3,7 +3,7 @@
    gen_make_contingency_manager, gen_make_event_tables, gen_contingency_maps (categorical/contingency_impl.py) are
    regenerated from the current source on every run; `mode` is a string (MStr) or a function of the operator module (MOp).
    Only statements; every proof is `exact <lemma>` into coq/proofs/C08.v. *)
-From V Require Import lib.Tree lib.C08_aux gen.Gen_C08_discretise gen.Gen_C08_contingency model.C08 proofs.C08.
+From V Require Import lib.Tree lib.C08_aux gen.Gen_C08_discretise gen.Gen_C08_contingency model.C08 proofs.C08 proofs.C08_additive.
 
 (* ---- discretisation ---- *)
 (* for each of the six relations r, both spellings, every rational data value x, threshold c and tolerance tol >= 0:
@@ -57,14 +57,9 @@ Theorem C08_complementary_inequalities_any_value : forall (r : cmpop) (d c : xv)
               gen_comparative_discretise d c m' (XFin tol) = Some b /\ xadd a b =x= XFin 1.
 Proof. exact complement_inequality_any. Qed.
 Print Assumptions C08_complementary_inequalities_any_value.
-(* full statement (all non-NaN values, == / != included) is FALSE of the code: inf == inf is reported 0 and so is inf != inf
-   (known finding discretise-eq-inf) *)
-Theorem C08_complementary_eq_ne_at_infinity_refuted :
-  exists d c, d <> XNaN /\ c <> XNaN /\
-    gen_comparative_discretise d c (MStr "==") (XFin 0) = Some (XFin 0) /\
-    gen_comparative_discretise d c (MStr "!=") (XFin 0) = Some (XFin 0).
-Proof. exact eq_ne_inf_refuted. Qed.
-Print Assumptions C08_complementary_eq_ne_at_infinity_refuted.
+(* the full statement (all non-NaN values, == / != included) is false of the current code: inf == inf is reported 0 and so is
+   inf != inf (known finding discretise-eq-inf; machine-checked witness in coq/proofs/C08_finding_eq_inf.v, which is
+   deliberately not imported here so that a repair of the defect does not break this file) *)
 
 (* abs_tolerance: None means 0, a negative number is the ValueError, anything else is used as given *)
 Theorem C08_tolerance_guard : forall t : option xv,
@@ -151,6 +146,18 @@ Theorem C08_counts_additive_leading_dim : forall (a : larr) (d : dim) (R : list 
   nansum (map (fun n => lget (lreduce nansum R a) (upd e d n)) (seq 0 (lsize a d))).
 Proof. exact counts_additive. Qed.
 Print Assumptions C08_counts_additive_leading_dim.
+(* ... for ANY kept dimension d of an array with distinct dimension names whose values depend on the index environment pointwise
+   (true of every array decoded from the wire and of everything built from such arrays by lzip / lmap) *)
+Theorem C08_counts_additive_any_dim : forall (a : larr) (d : dim) (R : list dim) (e : env),
+  ext (lget a) -> (forall e', xisinf (lget a e') = false) -> NoDup (ldims a) -> In d (ldims a) -> ~ In d R ->
+  lget (lreduce nansum (d :: R) a) e =x=
+  nansum (map (fun n => lget (lreduce nansum R a) (upd e d n)) (seq 0 (lsize a d))).
+Proof. exact counts_additive_any_dim. Qed.
+Print Assumptions C08_counts_additive_any_dim.
+Theorem C08_decoded_arrays_are_pointwise : forall dims data f g (b : larr),
+  ext (lget (of_flat dims data)) /\ (ext (lget b) -> ext (lget (lzip f (of_flat dims data) b))) /\ (ext (lget b) -> ext (lget (lmap g b))).
+Proof. exact (fun dims data f g b => conj (ext_of_flat dims data) (conj (fun H => ext_lzip f _ b (ext_of_flat dims data) H) (ext_lmap g b))). Qed.
+Print Assumptions C08_decoded_arrays_are_pointwise.
 Theorem C08_count_maps_have_no_infinity : forall m fe oe e,
   In m [map_tp; map_tn; map_fp; map_fn] -> xisinf (lget (lzip m fe oe) e) = false.
 Proof. exact count_map_noinf. Qed.
